@@ -76,8 +76,31 @@ def expr_src(e):
     if k == 'ix':
         return '%s[%s]' % (expr_src(e[1]), expr_src(e[2]))
     if k == 'call':
-        return '%s(%s)' % (e[1], ', '.join(expr_src(a) for a in e[2]))
+        # positional arguments, then keyword arguments (optional 4th item: [[name, expr], ...])
+        return '%s(%s)' % (e[1], ', '.join([expr_src(a) for a in e[2]] +
+                                           ['%s=%s' % (kk, expr_src(a)) for kk, a in call_kwargs(e)]))
     raise ValueError(e)
+
+
+def call_kwargs(n):
+    """keyword arguments of a call node ['c'|'call', name, args(, kwargs)]"""
+    return n[3] if len(n) > 3 else []
+
+
+def call_expr(n):
+    """the expression-level form ['call', name, args(, kwargs)] of a call node ['c', ...]"""
+    return ['call'] + list(n[1:])
+
+
+def def_defaults(arg):
+    """defaults of the parameters of a macro: arg = [name, params(, [[param, default expr], ...])];
+    the parameters with a default are the last ones"""
+    return arg[2] if len(arg) > 2 else []
+
+
+def def_params_src(arg):
+    dflt = dict((k, v) for k, v in def_defaults(arg))
+    return ['%s=%s' % (pn, expr_src(dflt[pn])) if pn in dflt else pn for pn in arg[1]]
 
 
 def xml_text(s):
@@ -91,7 +114,7 @@ def xml_attr(s):
 def dir_value(name, arg):
     """the attribute-form value of a directive"""
     if name == 'def':
-        return '%s(%s)' % (arg[0], ', '.join(arg[1])) if arg[1] else arg[0]
+        return '%s(%s)' % (arg[0], ', '.join(def_params_src(arg))) if arg[1] else arg[0]
     if name == 'for':
         return '%s in %s' % (arg[0], expr_src(arg[1]))
     if name in ('if', 'replace', 'content', 'attrs'):
@@ -118,7 +141,7 @@ def markup_nodes(nodes):
         elif k == 'e':
             out.append('${%s}' % xml_text(expr_src(n[1])))
         elif k == 'c':
-            out.append('${%s}' % xml_text(expr_src(['call', n[1], n[2]])))
+            out.append('${%s}' % xml_text(expr_src(call_expr(n))))
         elif k == 'el':
             _, tag, attrs, dirs, kids = n
             parts = [tag]
@@ -153,7 +176,7 @@ def to_newtext(nodes):
         elif k == 'e':
             out.append('${%s}' % expr_src(n[1]))
         elif k == 'c':
-            out.append('${%s}' % expr_src(['call', n[1], n[2]]))
+            out.append('${%s}' % expr_src(call_expr(n)))
         elif k == 'd':
             _, dn, arg, kids = n
             v = dir_value(dn, arg)
@@ -174,7 +197,7 @@ def to_oldtext(nodes):
         elif k == 'e':
             out.append('${%s}' % expr_src(n[1]))
         elif k == 'c':
-            out.append('${%s}' % expr_src(['call', n[1], n[2]]))
+            out.append('${%s}' % expr_src(call_expr(n)))
         elif k == 'd':
             _, dn, arg, kids = n
             v = dir_value(dn, arg)
@@ -393,12 +416,68 @@ def gen_text(rng):
     return ''.join(rng.choice(TEXTCH) for _ in range(rng.randrange(1, 4)))
 
 
+FALSY = [['n'], ['i', 0], ['s', ''], ['l', []], ['b', False], ['d', []]]
+
+
+def gen_argval(rng, names, depth):
+    """the value of an argument: every falsy value (None first of all) is as likely as a general
+    expression — a parameter must be bound to what was passed, whatever it is"""
+    r = rng.random()
+    if r < 0.2:
+        return ['n']
+    if r < 0.45:
+        return clone(rng.choice(FALSY))
+    return gen_expr(rng, names, depth)
+
+
+def gen_default(rng, names):
+    r = rng.random()
+    if r < 0.5:
+        return clone(rng.choice([['s', 'd'], ['i', 7], ['s', 'Z'], ['b', True], ['l', [['i', 1]]]]))
+    if r < 0.6:
+        return clone(rng.choice(FALSY))
+    return gen_expr(rng, names, 1)
+
+
+def gen_call(rng, names, macro, tag, depth):
+    """a call of a defined macro [name, params, number of defaults]: each parameter is passed by
+    position, by keyword, or left out (with or — rarely — without a default: the documented error);
+    rarely a surplus positional argument"""
+    f, params, nd = macro
+    n = len(params)
+    r = rng.random()
+    if r < 0.3:
+        npos = n
+    elif r < 0.36:
+        npos = n + 1
+    else:
+        npos = rng.randrange(0, n + 1)
+    args = [gen_argval(rng, names, depth) for _ in range(npos)]
+    kwargs = []
+    rest = list(enumerate(params))[npos:]
+    rng.shuffle(rest)                     # keyword arguments in any order
+    for i, pn in rest:
+        has_default = i >= n - nd
+        r = rng.random()
+        if r < (0.5 if has_default else 0.93):
+            kwargs.append([pn, gen_argval(rng, names, depth)])
+    node = [tag, f, args]
+    if kwargs:
+        node.append(kwargs)
+    return node
+
+
 def gen_dir(st, name, names, in_choose):
     """returns (arg, names bound inside)"""
     rng = st.rng
     if name == 'def':
         fname = st.fresh.pop(0)
-        params = rng.sample(['x', 'y', 'p'], rng.choice([0, 1, 1, 2]))
+        params = rng.sample(['x', 'y', 'p', 'q'], rng.choice([0, 1, 1, 2, 2, 3]))
+        # the last nd parameters have defaults (evaluated at each call that leaves them out)
+        nd = rng.choice([0, 0, 1, 1, 2, 3])
+        nd = min(nd, len(params))
+        if nd:
+            return [fname, params, [[pn, gen_default(rng, names)] for pn in params[len(params) - nd:]]], list(params)
         return [fname, params], list(params)
     if name == 'for':
         var = rng.choice(['x', 'y', 'it'])
@@ -425,8 +504,7 @@ def gen_dir(st, name, names, in_choose):
         return binds, bound
     if name in ('replace', 'content'):
         if st.defined and rng.random() < 0.15:
-            f, n = rng.choice(st.defined)
-            return ['call', f, [gen_expr(rng, names, 0) for _ in range(n)]], []
+            return gen_call(rng, names, rng.choice(st.defined), 'call', 0), []
         return gen_expr(rng, names, 1), []
     if name == 'attrs':
         return gen_attrs_expr(rng, names), []
@@ -482,9 +560,7 @@ def gen_node(st, names, depth, in_choose):
         return ['e', gen_expr(rng, names, 2)]
     if r < 0.5:
         if st.defined and rng.random() < 0.97:
-            f, n = rng.choice(st.defined)
-            k = n if rng.random() < 0.92 else max(0, n + rng.choice([-1, 1]))
-            return ['c', f, [gen_expr(rng, names, 1) for _ in range(k)]]
+            return gen_call(rng, names, rng.choice(st.defined), 'c', 1)
         if rng.random() < 0.04:
             return ['c', rng.choice(['x', 'nf']), []]         # not a macro
         return ['e', gen_expr(rng, names, 2)]
@@ -503,7 +579,7 @@ def gen_node(st, names, depth, in_choose):
     arg, bound = gen_dir(st, dn, names, in_choose)
     kids = gen_nodes(st, names + bound, depth - 1, dn == 'choose' or (in_choose and dn not in ('def',)))
     if dn == 'def':
-        st.defined.append([arg[0], len(arg[1])])
+        st.defined.append([arg[0], list(arg[1]), len(def_defaults(arg))])
     return ['d', dn, arg, kids]
 
 
@@ -525,7 +601,7 @@ def gen_element(st, names, depth, in_choose, dirnames):
     inner_choose = ('choose' in dirnames) or (in_choose and 'def' not in dirnames)
     kids = gen_nodes(st, names + bound, depth - 1, inner_choose)
     if 'def' in dirnames:
-        st.defined.append([args['def'][0], len(args['def'][1])])
+        st.defined.append([args['def'][0], list(args['def'][1]), len(def_defaults(args['def']))])
     return ['el', tag, attrs, dirs, kids]
 
 
@@ -653,7 +729,8 @@ def expr_w(e):
         return [Atom(k.upper()), expr_w(e[1])]
     if k == 'call':
         # the callee is an expression (a name): it is looked up before the arguments are evaluated
-        return [Atom('CALL'), [Atom('V'), e[1]], [expr_w(a) for a in e[2]]]
+        return [Atom('CALL'), [Atom('V'), e[1]], [expr_w(a) for a in e[2]] +
+                [[Atom('KW'), kk, expr_w(a)] for kk, a in call_kwargs(e)]]
     raise ValueError(e)
 
 
@@ -666,7 +743,8 @@ def dir_w(name, arg):
     from harness.proto import Atom
     tag = Atom(name.capitalize())
     if name == 'def':
-        return [tag, arg[0], list(arg[1])]
+        dflt = dict((k, v) for k, v in def_defaults(arg))
+        return [tag, arg[0], [[Atom('DF'), pn, expr_w(dflt[pn])] if pn in dflt else pn for pn in arg[1]]]
     if name == 'for':
         return [tag, arg[0], expr_w(arg[1])]
     if name in ('if', 'replace', 'content', 'attrs'):
@@ -688,7 +766,7 @@ def node_w(n):
     if k == 'e':
         return [Atom('E'), expr_w(n[1])]
     if k == 'c':
-        return [Atom('E'), expr_w(['call', n[1], n[2]])]
+        return [Atom('E'), expr_w(call_expr(n))]
     if k == 'el':
         return [Atom('EL'), n[1], [[a, v] for a, v in n[2]], [dir_w(d, a) for d, a in n[3]],
                 [node_w(c) for c in n[4]]]
@@ -777,16 +855,25 @@ def ok_expr(e):
         if k in ('not', 'len'):
             return ok_expr(e[1])
         if k == 'call':
-            return ok_name(e[1]) and all(ok_expr(a) for a in e[2])
+            return ok_name(e[1]) and all(ok_expr(a) for a in e[2]) and ok_kwargs(e)
     except Exception:
         return False
     return False
 
 
+def ok_kwargs(n):
+    kw = call_kwargs(n)
+    return len(n) <= 4 and all(ok_key(k) and ok_expr(a) for k, a in kw) and len(set(k for k, _ in kw)) == len(kw)
+
+
 def ok_dir(name, arg, elem_form):
     try:
         if name == 'def':
-            return ok_name(arg[0]) and all(ok_name(p) for p in arg[1])
+            dflt = def_defaults(arg)
+            # the parameters with defaults are the last ones, in order; parameter names are distinct
+            return ok_name(arg[0]) and all(ok_name(p) for p in arg[1]) and len(arg) <= 3 and \
+                len(set(arg[1])) == len(arg[1]) and \
+                [k for k, _ in dflt] == list(arg[1][len(arg[1]) - len(dflt):]) and all(ok_expr(v) for _, v in dflt)
         if name == 'for':
             return ok_name(arg[0]) and ok_expr(arg[1])
         if name in ('if', 'attrs'):
@@ -819,7 +906,7 @@ def valid_nodes(nodes, lang='markup'):
                 if not ok_expr(n[1]):
                     return False
             elif k == 'c':
-                if not (ok_name(n[1]) and all(ok_expr(a) for a in n[2])):
+                if not (ok_name(n[1]) and all(ok_expr(a) for a in n[2]) and ok_kwargs(n)):
                     return False
             elif k == 'el':
                 if lang != 'markup' or not ok_name(n[1]):
